@@ -136,10 +136,15 @@ func recvName(fn *ssa.Function) string {
 }
 
 // Func resolves an anchor; an unresolved anchor is an error for the caller to report as fatal.
-func (p *Prog) Func(name string) *ssa.Function { return p.funcs[name] }
+func (p *Prog) Func(name string) *ssa.Function {
+	if f := p.funcs[name]; f != nil {
+		return f
+	}
+	return p.resolveByRole(name)
+}
 
 func (p *Prog) MustFunc(r *Report, name string) *ssa.Function {
-	f := p.funcs[name]
+	f := p.Func(name)
 	if f == nil {
 		r.Fatalf("unresolved anchor: function %s not found for GOARCH=%s", name, p.Arch)
 	}
